@@ -26,3 +26,24 @@ def quiet():
         os.close(saved[0])
         os.close(saved[1])
         os.close(devnull)
+
+
+@contextlib.contextmanager
+def sparse_object_matmul():
+    """Harness-side stub (listed in evidence): scipy.sparse @ object-array raises in SciPy, so for
+    object operands the product is computed densely.  The code under test is unchanged; for numeric
+    operands the original SciPy routine runs."""
+    import numpy as np
+    import scipy.sparse as sp
+    base = sp._base._spbase
+    orig = base._matmul_dispatch
+
+    def patched(self, other):
+        if isinstance(other, np.ndarray) and other.dtype == object:
+            return np.asarray(self.toarray(), dtype=object) @ other
+        return orig(self, other)
+    base._matmul_dispatch = patched
+    try:
+        yield
+    finally:
+        base._matmul_dispatch = orig
